@@ -425,3 +425,31 @@ def summary_permutation_operator(interp, args, kw):
     pre(interp, "permutation_operator: flags are booleans", isinstance(a["inv_perm"], bool) and isinstance(a["is_sparse"], bool))
     N = _prod(d)
     return AbsArr((N, N))
+
+
+# ---------------------------------------------------------------------------------------------
+# dual_channel (Choi-matrix branch) -- C05
+# ---------------------------------------------------------------------------------------------
+def spec_dual_choi(J, d_in, d_out):
+    """dual_channel(J) for a Choi matrix J on (C^{d_in} (x) C^{d_out}) with row dims (di0, do0) and column dims (di1, do1):
+       result[(b, a), (b', a')] == conj(J[(a, b), (a', b')]) -- the two tensor factors exchanged and every entry conjugated."""
+    (di0, di1), (do0, do1) = d_in, d_out
+    swapped = spec_swap(J, [1, 2], [di0, do0], [di1, do1], False)
+
+    def g(idx):
+        e = swapped.get(idx)
+        return Entry(e.name, e.idx, not e.conj)
+
+    return SymArray(swapped.shape, g, J.kind)
+
+
+def summary_channel_dim_choi(d_in, d_out):
+    """call-site contract of helper.channel_dim for a Choi matrix with `dim` given: returns (d_in pair, d_out pair, None) when
+    prod matches the matrix (requires checked at the call site)."""
+
+    def summary(interp, args, kw):
+        phi = args[0]
+        pre(interp, "channel_dim: Choi matrix has d_in*d_out rows and columns", sp.And(sp.Eq(phi.shape[0], sp.sympify(d_in[0]) * d_out[0]), sp.Eq(phi.shape[1], sp.sympify(d_in[1]) * d_out[1])) if not (same(phi.shape[0], sp.sympify(d_in[0]) * d_out[0]) and same(phi.shape[1], sp.sympify(d_in[1]) * d_out[1])) else True)
+        return (list(d_in), list(d_out), None)
+
+    return summary
